@@ -243,7 +243,9 @@ func (its *PushPullHandler) reserveUpdateSnapshot(ctx iface.OrdaContext) error {
 }
 
 func (its *PushPullHandler) commitToMongoDB() errors.OrdaError {
-	its.datatypeDoc.Sseq.End = its.currentCP.Sseq
+	if !its.isReadOnly { // a read-only client stores nothing: its checkpoint may lag and must not move the end of the log
+		its.datatypeDoc.Sseq.End = its.currentCP.Sseq
+	}
 	its.resPushPullPack.CheckPoint = its.currentCP
 	its.subClientDoc.UpdateAt()
 	if len(its.pushingOperations) > 0 {
